@@ -590,6 +590,11 @@ PROPS["C11"] = dict(
              "<Fen as IntoNotation<State>>::into_notation"], timeout=1800),
         K("c11w", "c11_piece_letter_display_contract", desc="Display for PieceIndex through the real core::fmt: exactly one byte, the letter of the kind, "
           "upper case for White (the contract the extracted writer is compiled against)", functions=["<PieceIndex as Display>::fmt"], timeout=1500),
+        K("c11w", "c11_mailbox_of_board_contract", desc="ArrayMap::<Square, PieceIndex>::from(&Board) (the mailbox view the writer starts from): at every square the piece "
+          "standing there; fully symbolic position and square", functions=["<ArrayMap<Square, PieceIndex> as From<&Board>>::from", "Board::piece_at"], timeout=2400, heavy=True,
+          tier="experimental", unwindset_rules=[("piece_at", r"for piece in Piece::ALL", 8), ("piece_at", r"for color in Color::ALL", 3),
+                                                 ("From<&board::Board>", r"for square in Square::ALL", 65),
+                                                 ("Board::new", r"for \w+ in Piece::ALL", 8), ("Board::new", r"for \w+ in Color::ALL", 3)]),
         K("c11w", "c11_writer_fields_contract", desc="the FEN WRITER (whole body extracted verbatim, write! bound to a byte sink): for both sides, all 16 castling "
           "sets, every en-passant target or none and both clocks (std's decimal text kept abstract) the written line is the canonical line byte for byte "
           "(placement: two kings)",
